@@ -3,6 +3,7 @@ package rules
 import (
 	"fmt"
 	"go/token"
+	"go/types"
 	"sort"
 	"strings"
 
@@ -16,7 +17,7 @@ func init() {
 		ID:  "C06",
 		Run: runC06,
 		Explanation: "Custom DNS rewrites. Decided: (D1) termination: the CNAME-chase loop has a visited-set variant — the set is created before the loop, the next host is tested with Has and, on the not-seen edge, added with Add as the very same value that becomes the loop's host and the argument of the next table lookup; every cycle of the loop passes that Add; a seen host leaves the loop; the table is not written inside and the whole evaluation runs under the configuration read lock; the helper loops are counted range loops; " +
-			"(D2) address provenance: addresses are appended to the result only from the IP field of entries returned by the table lookup for the final host, and only for entries whose type equals the query type; every other writer of the address list is enumerated; (D3) response assembly: the original question is saved before the name is replaced, and restored (request and response) with the CNAME record prepended; the CNAME helper restores the name by defer; " +
+			"(D2) address provenance: addresses are appended to the result only from the IP field of entries returned by the table lookup for the final host, and only for entries whose type equals the query type; every other writer of the address list is enumerated; (D3) response assembly: the original question is saved before the name is replaced, and restored (request and response) with the CNAME record prepended; the CNAME helper restores the name (by defer, or explicitly on every path to its return); " +
 			"(D4) 'matched but no value' yields the Rewritten reason, which ends host checking before any other checker; entries enter the table only after normalisation and their fields are never edited in place. " +
 			"(D5) precedence: the comparator the matched entries are sorted with, evaluated over the finite domain {is-CNAME} x {is-wildcard} x {sign of the pattern-length difference} of both arguments, puts CNAME before address entries, exact before wildcard within one kind and the longer wildcard first, antisymmetrically; the sorted list is cut at the first wildcard keeping at least one entry, and nothing else is returned. " +
 			"Not decided: wildcard matching itself (suffix test), agreement with the documentation examples.",
@@ -182,6 +183,9 @@ func runC06(c *Ctx) {
 			continue
 		}
 		for _, h := range loopHeaders(fn) {
+			if fn == pr && p.FnExact(fk) == nil && add != nil && h.Dominates(add.Block()) {
+				continue // the helper was folded into the evaluation: this is the chase loop, argued above
+			}
 			r.Check(strings.HasPrefix(h.Comment, "rangeindex") || strings.HasPrefix(h.Comment, "rangeiter"), "C06-D1", fmt.Sprintf("counted-loop:%s:b%d", fk, h.Index), p.FnPos(fn),
 				"range loop over a slice (counted)", "a loop in "+fk+" is not a range loop; no termination argument is recognised")
 		}
@@ -218,10 +222,29 @@ func c06Addresses(c *Ctx) {
 	}
 	sort.Strings(names)
 	r.Info["IPList_writers"] = names
+	// the entries found for the finally resolved host: the chase loop's own list in processRewrites
+	var rwPhi *ssa.Phi
+	if pr := p.Fn("(*filtering.DNSFilter).processRewrites"); pr != nil {
+		for _, h := range loopHeaders(pr) {
+			for _, in := range h.Instrs {
+				phi, ok := in.(*ssa.Phi)
+				if !ok {
+					continue
+				}
+				for i, e := range phi.Edges {
+					if i < len(h.Preds) && h.Dominates(h.Preds[i]) && core.IsCallResult(e, 0, "filtering.findRewrites") {
+						rwPhi = phi
+					}
+				}
+			}
+		}
+	}
+	nSel := 0
 	for _, fk := range names {
 		fn := p.Fn(fk)
 		switch {
-		case fk == "filtering.setRewriteResult":
+		case core.PkgOf(fn) == "filtering":
+			// the function that selects the addresses (setRewriteResult, or whoever took that over)
 			for i, st := range writers[fk] {
 				os := core.Origins(st.Val, core.ProvOpts{Prog: p})
 				okO := false
@@ -239,27 +262,70 @@ func c06Addresses(c *Ctx) {
 				}
 				r.Check(okO && len(bad) == 0, "C06-D2", fmt.Sprintf("address-origin:%s#%d", fk, i+1), p.InstrPos(st),
 					"appended addresses are the IP fields of the entries handed in", fmt.Sprintf("an address is appended to the result that is not the IP of a table entry for this host: %v", bad))
-				// under rw.Type == qtype
-				var qtype ssa.Value
-				if len(fn.Params) == 4 {
-					qtype = fn.Params[3]
-				}
-				g, n := core.CondEdges(fn, func(at core.Atom) (bool, bool) {
-					if at.Op == token.EQL || at.Op == token.NEQ {
-						f1, _, ok1 := core.LoadedField(at.Base)
-						if ok1 && f1.Type == "filtering.LegacyRewrite" && f1.Field == "Type" && at.Other == qtype {
-							return true, at.Op == token.EQL
+			}
+			// every place where an entry's IP is put into a list: under <same entry>.Type == <the query type>, and
+			// the entry is an element of the list found for the final host
+			nApp := 0
+			for _, b := range fn.Blocks {
+				for _, in := range b.Instrs {
+					el, ok := in.(*ssa.Store)
+					if !ok {
+						continue
+					}
+					fr, owner, isF := core.LoadedField(el.Val)
+					if !isF || fr.Type != "filtering.LegacyRewrite" || fr.Field != "IP" {
+						continue
+					}
+					if _, isIdx := el.Addr.(*ssa.IndexAddr); !isIdx {
+						continue
+					}
+					nApp++
+					nSel++
+					isQType := func(v ssa.Value) bool {
+						prm, isPrm := v.(*ssa.Parameter)
+						if !isPrm {
+							return false
 						}
-						f2, _, ok2 := core.LoadedField(at.Other)
-						if ok2 && f2.Type == "filtering.LegacyRewrite" && f2.Field == "Type" && at.Base == qtype {
-							return true, at.Op == token.EQL
+						bt, isB := prm.Type().Underlying().(*types.Basic)
+						return isB && bt.Kind() == types.Uint16
+					}
+					g, n := core.CondEdges(fn, func(at core.Atom) (bool, bool) {
+						if at.Op == token.EQL || at.Op == token.NEQ {
+							f1, o1, ok1 := core.LoadedField(at.Base)
+							if ok1 && f1.Type == "filtering.LegacyRewrite" && f1.Field == "Type" && core.SameValue(o1, owner) && isQType(at.Other) {
+								return true, at.Op == token.EQL
+							}
+							f2, o2, ok2 := core.LoadedField(at.Other)
+							if ok2 && f2.Type == "filtering.LegacyRewrite" && f2.Field == "Type" && core.SameValue(o2, owner) && isQType(at.Base) {
+								return true, at.Op == token.EQL
+							}
+						}
+						return false, false
+					})
+					off, _ := core.UnguardedSinks(fn, func(x ssa.Instruction) bool { return x == ssa.Instruction(el) }, g)
+					r.Check(n > 0 && len(off) == 0, "C06-D2", fmt.Sprintf("address-family:%s#%d", fk, nApp), p.InstrPos(el),
+						"an address is appended only when the entry's type equals the query type", "an address of the wrong family can be appended", traceOf(p, off)...)
+					// the entry is an element of the final host's list
+					okList := false
+					if ld, isLd := owner.(*ssa.UnOp); isLd && ld.Op == token.MUL {
+						if ia, isIA := ld.X.(*ssa.IndexAddr); isIA && rwPhi != nil {
+							list := ia.X
+							if prm, isPrm := list.(*ssa.Parameter); isPrm {
+								args := core.ArgsOfParam(prm)
+								okList = len(args) > 0
+								for _, a := range args {
+									if a != ssa.Value(rwPhi) {
+										okList = false
+									}
+								}
+							} else {
+								okList = list == ssa.Value(rwPhi)
+							}
 						}
 					}
-					return false, false
-				})
-				off, _ := core.UnguardedSinks(fn, func(x ssa.Instruction) bool { return x == ssa.Instruction(st) }, g)
-				r.Check(n > 0 && len(off) == 0, "C06-D2", fmt.Sprintf("address-family:%s#%d", fk, i+1), p.InstrPos(st),
-					"an address is appended only when the entry's type equals the query type", "an address of the wrong family can be appended", traceOf(p, off)...)
+					r.Check(okList, "C06-D2", fmt.Sprintf("addresses-from-final-list:%s#%d", fk, nApp), p.InstrPos(el),
+						"addresses are taken from the entries found for the finally resolved host", "addresses are selected from entries that were not found for the finally resolved host")
+				}
 			}
 		case core.PkgOf(fn) == "querylog":
 			r.Ok("C06-D2", "address-writer:"+fk, p.FnPos(fn), "query-log file decoder: restores a recorded result, not part of resolution")
@@ -269,6 +335,7 @@ func c06Addresses(c *Ctx) {
 			r.Fail("C06-D2", "address-writer:"+fk, p.FnPos(fn), "an unclassified function writes the result's address list: addresses that are not in the rewrite table could be answered")
 		}
 	}
+	r.Floor("C06-D2", "address-selection-sites", nSel, 1)
 	r.Floor("C06-D2", "address-list-writers", len(names), 2)
 }
 
@@ -353,7 +420,7 @@ func c06Assembly(c *Ctx) {
 				if !ok || f2.Field != base {
 					return false
 				}
-				f3, _, ok := core.LoadedField(st.Val)
+				f3, _, ok := core.LoadedField(core.ResolveCellLoad(st.Val))
 				return ok && f3.Field == "origQuestion"
 			}
 		}
@@ -391,7 +458,36 @@ func c06Assembly(c *Ctx) {
 				hasDefer = true
 			}
 		}
-		r.Check(okDefer && hasDefer, "C06-D3", "cname-helper-restores-name", p.FnPos(gc), "the CNAME helper restores the question name by defer", "the CNAME helper no longer restores the question name")
+		okRestore := okDefer && hasDefer
+		if !okRestore {
+			// or explicitly: no way from the renaming store to a return goes around a store that puts the saved name back
+			isSaved := func(v ssa.Value) bool {
+				fr, _, ok := core.LoadedField(core.ResolveLocalLoad(v))
+				return ok && fr.Type == "github.com/miekg/dns.Question" && fr.Field == "Name"
+			}
+			nameSt := isStore("github.com/miekg/dns.Question", "Name")
+			var renames []core.Point
+			nRestore := 0
+			for _, b := range gc.Blocks {
+				for i, in := range b.Instrs {
+					if !nameSt(in) {
+						continue
+					}
+					if isSaved(in.(*ssa.Store).Val) {
+						nRestore++
+					} else {
+						renames = append(renames, core.Point{Block: b, Idx: i + 1})
+					}
+				}
+			}
+			if len(renames) > 0 && nRestore > 0 {
+				found, _, _ := core.Reach(core.Query{From: renames, Target: core.IsReturn, Avoid: func(in ssa.Instruction) bool {
+					return nameSt(in) && isSaved(in.(*ssa.Store).Val)
+				}})
+				okRestore = !found
+			}
+		}
+		r.Check(okRestore, "C06-D3", "cname-helper-restores-name", p.FnPos(gc), "the CNAME helper restores the question name (by defer, or on every path to its return)", "the CNAME helper no longer restores the question name")
 	}
 }
 
